@@ -483,8 +483,11 @@ class Ctx:
             "known_findings_reported": self.known_printed,
             "notes": self.notes,
         }
-        os.makedirs(os.path.join(VERIF, "evidence"), exist_ok=True)
-        with open(os.path.join(VERIF, "evidence", self.pid + ".json"), "w") as f:
+        # evidence/ is only ever written by a run against /repo itself; a run against a scratch tree
+        # (VERIF_REPO=..., seeded changes) writes under its own per-repository build directory
+        evdir = os.path.join(VERIF, "evidence") if os.path.abspath(REPO) == "/repo" else os.path.join(dyn_dir(), "evidence")
+        os.makedirs(evdir, exist_ok=True)
+        with open(os.path.join(evdir, self.pid + ".json"), "w") as f:
             json.dump(ev, f, indent=1, default=str)
         return ev
 
